@@ -663,7 +663,12 @@ func (v *Verifier) assumeAxioms(st *State) {
 				}
 			}()
 			se := &SpecEnv{e: v.env, s: st, old: nil, vars: map[string]Value{}, pkg: a.Pkg, qn: &v.qn}
-			st.assume(se.evalBool(a.E))
+			f := se.evalBool(a.E)
+			if v.env.ctx.specAxioms == nil {
+				v.env.ctx.specAxioms = map[string]bool{}
+			}
+			v.env.ctx.specAxioms[f] = true
+			st.assume(f)
 		}()
 	}
 }
